@@ -95,8 +95,12 @@ def run(tier, seed):
             fails.append((case, {k: v[:4] for k, v in by.items()}))
         if model_ok and not case.get("same_bytes"):
             corr.append(case)
+    dfails, dstats = dir_order_probe(c, [cs for cs in cases if cs["impl"].startswith("ok")], tier, seed)
+    for case, by in dfails:
+        fails.append((case, by))
+    c.cov["directory_enumeration"] = dstats
     c.cov.update({
-        "evaluations": sum(len(k) for k in probes),
+        "evaluations": sum(len(k) for k in probes) + dstats.get("cli_runs", 0),
         "distinct_nontrivial": sum(1 for cs in cases if cs["impl"].startswith("ok")),
         "rule": "per input: 3 fresh processes x (5 registration orders + 1 other thread + 3 repeated calls on one FilesToRead), all 27 outputs compared byte for byte (by hash); "
                 "non-trivial = an input the generator accepts; inputs: repository corpus, generated WSDLs with 1-4 operations and 1-4 parts per message (also messages with parts bound neither as body nor as header), cyclic import graphs, and sets of sibling files whose names differ only in case / extension case / white space / Unicode normal form",
@@ -125,6 +129,53 @@ def run(tier, seed):
         c.violation({"kind": "obligation", "no_longer_checks": what, "searched": f"{len(cases)} inputs x 27 probes without finding two different outputs"}, no_input=True)
     g.cleanup(f"C12-{tier}-{seed}")
     return c.finish(checker_cmd=CHECKER)
+
+
+def dir_order_probe(c, cases, tier, seed):
+    """the command-line tool collects the sibling files itself, in the order the directory lists them. The same file contents are laid
+    out in several creation orders on a file system that lists by creation order (tmpfs; elsewhere the listing order is the file
+    system's own and the probe still compares runs), together with siblings nobody imports — one of them not UTF-8 text, created
+    first / last / in the middle — and the tool's exit status and output bytes are compared across the layouts."""
+    import hashlib
+    import shutil
+    import tempfile
+    from .common import sh, REPO
+    from . import c17
+    rc, out, err = sh(["cargo", "build", "--offline", "-q", "-p", "zeep", "--target-dir", c17.BIN_DIR], cwd=REPO, timeout=3000)
+    cli = os.path.join(c17.BIN_DIR, "debug", "zeep")
+    if rc != 0 or not os.path.exists(cli):
+        c.proof["errors"].append("the zeep binary does not build: " + (out + err)[-300:])
+        return [], {"cli_runs": 0}
+    multi = [cs for cs in cases if len(os.listdir(cs["in"])) > 1][: (12 if tier == "quick" else 150)]
+    base = "/dev/shm" if os.path.isdir("/dev/shm") and os.access("/dev/shm", os.W_OK) else os.environ.get("ZV_SCRATCH", "/var/tmp")
+    top = tempfile.mkdtemp(prefix="zv-c12-dir-", dir=base)
+    fails, runs = [], 0
+    extras = {"mm_unreadable.xsd": b"\xff\xfe<\x00x\x00/\x00>\x00", "mm_unrelated.xsd": b'<xs:schema xmlns:xs="http://www.w3.org/2001/XMLSchema" targetNamespace="urn:zv:unrelated"/>', "notes.txt": b"hello"}
+    try:
+        for k, cs in enumerate(multi):
+            names = sorted(os.listdir(cs["in"]))
+            content = {n: open(os.path.join(cs["in"], n), "rb").read() for n in names}
+            content.update(extras)
+            orders = {"extras-first": list(extras) + names, "extras-last": names + list(extras), "reversed": list(reversed(names + list(extras))),
+                      "unreadable-in-the-middle": names[: len(names) // 2] + list(extras) + names[len(names) // 2:]}
+            seen = {}
+            for oname, order in orders.items():
+                d = os.path.join(top, f"{k}-{oname}")
+                os.makedirs(d)
+                for n in order:
+                    with open(os.path.join(d, n), "wb") as f:
+                        f.write(content[n])
+                o = os.path.join(top, f"{k}-{oname}.rs")
+                r, so, se = sh([cli, "-i", os.path.join(d, cs["start"]), "-o", o], timeout=120)
+                runs += 1
+                key = (r, hashlib.sha256(open(o, "rb").read()).hexdigest()[:16] if r == 0 and os.path.exists(o) else "-")
+                seen.setdefault(key, []).append("cli/dir-order/" + oname)
+                shutil.rmtree(d, ignore_errors=True)
+            if len(seen) != 1:
+                fails.append((cs, {f"exit={k2[0]} {k2[1]}": v for k2, v in seen.items()}))
+    finally:
+        shutil.rmtree(top, ignore_errors=True)
+    return fails, {"inputs": len(multi), "cli_runs": runs, "layouts": 4, "file_system": base, "differing": len(fails)}
 
 
 def replay(payload):
